@@ -24,7 +24,38 @@ Specification: spec/Listing.tla
 Verdict-bearing: TLC's rejection of a ROW / SYM / MAPLINE / OBJLINE / EMITS event.  The model's predicted rows
 for generated programs are compared as a diagnostic only (SPEC-DRIFT).
 Not judged: page layout, titles, cross reference / usage lists, float and string symbols, symbols local to
-sections, bit symbols printed through DissectBit, rows of lines whose listing is suppressed.
+sections, bit symbols printed through DissectBit; WHICH lines a listing holds under LISTING / MACEXP is compared
+with ListingModes' expectation as a diagnostic only (the property speaks about the lines that are listed).
+
+Dimension "listing modes" (spec/ListingModes.tla, _MC, _Gen; vlib/listmodes.py) - added after a seeded change
+(as.c ProcessFile: `*ListLine = 0` once per pass instead of once per line) passed the check: ListLine is the extra
+text ('=>TRUE', '[n]', '(MACRO)', '=value', 'ALL' ...) that MakeList() prints INSTEAD of a line's code and clears
+only when the line is listed; a statement that writes it while kept out of the listing (IF / ENDIF under LISTING
+PURECODE or in the expansion of a {NOEXPIF} / MACEXP_DFT NOIF macro, SET / nested calls in a hidden expansion)
+left it to the next listed line, which then showed the text and no bytes.  The old case space had neither a
+program that keeps lines out of the listing nor a judgement for rows WITHOUT units.  Now:
+  * ListingModes.tla: ApplyMods (lstmacroexp.c), ThisDoLst (MakeList), IFListMask (asmif.c), Eff (Produce_Code for
+    data / SET / IF / ELSEIF / ELSE / ENDIF / LISTING 0..3 / MACEXP_DFT / MACEXP_OVR / MACEXP / SAVE / RESTORE / macro
+    definition with control parameters / call / REPT: IfAsm, IF stack, ActiveIF, NextDoLst, CodeLen, ListLine),
+    Process (per-line reset, MakeList, DoLst = NextDoLst), PopFrame (MACRO_Restorer); declarative side ManualListed
+    (manual: classes of lines, default / control parameters / override, NOSKIPPED / PURECODE), ShowsItsCode (the
+    property), TextIsOwn.  Named deviations of the code from the manual: LegacyIsOverride (the statement MACEXP
+    sets the override list, not the default one), SkippedNeedsRest, StaleActiveIF.
+  * (M) ListingModes_MC: every program of 3 top-level statements (quick: 1 macro id, 2 bodies, 4 modifier lists,
+    25 k states; thorough: 3 ids, 5 bodies incl. nested call and REPT in a macro, 9 modifier lists, 6 control
+    parameter lists, 1.6 M states): CodeShown, TextOwn, ListedAsManual, Sane; ListingModes_MC_stale.cfg (ListLine
+    cleared only by a listed line) must be refuted by TLC.
+  * (G) ListingModes_Gen: simulated programs of 14 top-level statements (weighted mix) with, for every processed
+    line, listed or not and what the code column holds (rows by MakeListRows under the target / radix); `hot` =
+    places where a hidden statement writes a text in front of a listed code line, programs with hot > 0 are
+    preferred (quick 40 programs, thorough 1000), rendered for z80 / 8051 / 68000 / 320C25.  On the unchanged
+    tree all 600 programs of a trial matched the expectation line by line.
+  * (V) Listing.tla LineShown / Listing_Trace Withheld: a first row WITHOUT units is rejected when the emission the
+    harness names (found by aligning the rows with the hook's `stmt` records of the final pass: same line, same
+    address, same operation, in order - vlib/listmodes.row_events) is an emission of that line, not listed yet,
+    at the row's address, with code.  Applies to every run, golden sources included; key deviation
+    "text-for-code".  A row the harness cannot align (no `stmt` record: '#' lines, <padding>) is not judged.
+  Mutation (the seeded one): quick tier 20 VIOLATION lines (exit 1), unchanged tree exit 0.
 
 Defects of the pinned tree d9f49b6, repaired in /repo meanwhile (known_findings/C19.json, status fixed): (1) -listradix is ignored for addresses and code of
 the listing (hex digits in columns of the requested radix' width), proposed_fixes/C19-listradix-ignored.diff: on
@@ -63,7 +94,7 @@ import os
 import shutil
 import tempfile
 
-from vlib import aslrun, build, codefile, listing, tlc
+from vlib import aslrun, build, codefile, listing, listmodes, tlc
 from vlib.common import CheckError, NCPU, Phase, REPO, log, rng, run, scratch, seed
 from vlib.report import Report
 
@@ -71,6 +102,7 @@ PID = "C19"
 RADICES = [16, 2, 8, 10, 36]
 SHARES = [("c", "-c", ".h"), ("pas", "-p", ".inc"), ("asm", "-a", ".inc")]
 DEBUGS = [("MAP", ".map"), ("NOICE", ".noi"), ("ATMEL", ".obj")]
+EVENTS = "file,emit,sym,stmt"      # stmt: one record per processed line (which row stands for which line: listmodes.row_events)
 
 DIALECTS = {
     "z80": {"tgt": (1, 1), "cpu": "z80", "data": "db", "res": "ds", "unit": 1, "seg2": None, "big": False},
@@ -176,7 +208,7 @@ def case_events(trace, files, base, radix, share_kind, debug_kind, pbytes, readi
             "emits": [{k: v for k, v in e.items() if not k.startswith("_")} for e in em],
             "recs": listing.records(pr) if pr is not None else [], "syms": vals if vals else {"_": "0"}}
     ev = [case]
-    stats = {"rows": 0, "code_rows": 0, "syms": 0, "maplines": 0, "emits": len(em)}
+    stats = {"rows": 0, "code_rows": 0, "syms": 0, "maplines": 0, "emits": len(em), "aligned": 0, "withheld": 0}
     lst = files.get(base + ".lst")
     if lst is not None:
         rows, lsyms = listing.parse_listing(lst.decode("latin-1"), radix)
@@ -186,7 +218,9 @@ def case_events(trace, files, base, radix, share_kind, debug_kind, pbytes, readi
             rows = _reread(lst.decode("latin-1"), radix, rr)
         stats["rows"] = len(rows)
         stats["code_rows"] = sum(1 for x in rows if x["units"])
-        ev += listing.row_events(rows, em)
+        rev, stats["aligned"] = listmodes.row_events(rows, em, listmodes.statements(trace))
+        stats["withheld"] = sum(1 for x in rev if x["a"] == "ROW" and not x["units"] and x["at"])
+        ev += rev
         for (n, sect, vtxt, seg, used) in lsyms:
             if sect is not None or n.upper() not in vals or seg == "B" or vtxt.startswith('"'):
                 continue                  # section-local, no integer, bit symbol (printed by DissectBit), string
@@ -284,8 +318,9 @@ def _run_generated(args):
     (bdir, hooks, flavour, sources, opts, wants) = args
     from vlib.build import Build
     b = Build(bdir, flavour, hooks)
-    r = aslrun.assemble(b, sources, opts=opts, events="file,emit,sym", want=wants)
-    return {"rc": r.rc, "msg": (r.out + r.err)[-400:], "p": r.p, "files": r.files, "trace": r.trace}
+    r = aslrun.assemble(b, sources, opts=opts, events=EVENTS, want=wants)
+    return {"rc": r.rc, "msg": (r.out + r.err)[-400:], "p": r.p, "files": r.files,
+            "trace": listmodes.compact(r.trace) if r.trace is not None else None}
 
 
 def _run_corpus(args):
@@ -306,7 +341,7 @@ def _run_corpus(args):
         e = b.env(None)
         tr = os.path.join(d, "trace.ndjson")
         e["ASL_VERIF_TRACE"] = tr
-        e["ASL_VERIF_EVENTS"] = "file,emit,sym"
+        e["ASL_VERIF_EVENTS"] = EVENTS
         pfile = os.path.join(d, name + ".p")
         cmd = [b.tool("asl")] + [f for f in flags if f not in ("-c", "-p", "-a")] + ["-q", "-i", aslrun.INCLUDE] + opts + \
               [os.path.join(d, name + ".asm"), "-o", pfile, "-olist", os.path.join(d, name + ".lst")]
@@ -321,7 +356,7 @@ def _run_corpus(args):
         if os.path.exists(pfile):
             with open(pfile, "rb") as fh:
                 pb = fh.read()
-        trace = aslrun.read_trace(tr) if os.path.exists(tr) else None
+        trace = listmodes.compact(aslrun.read_trace(tr)) if os.path.exists(tr) else None
         return {"rc": rc, "msg": (o + er)[-400:], "p": pb, "files": files, "trace": trace}
     finally:
         shutil.rmtree(d, ignore_errors=True)
@@ -358,6 +393,10 @@ def judge(cases, timeout=1700):
 
 def describe(ev, k):
     e = ev[k]
+    if e["a"] == "ROW" and not e["units"]:
+        ctx = ev[0]["emits"][e["at"] - 1] if e.get("at") else None
+        return "listing row line=%s addr=%s shows no code, but stands for a line that produced code: emission %s" % (
+            e["line"], e["addr"], {k2: ctx[k2] for k2 in ("line", "seg", "gran", "addr", "ph", "bytes")} if ctx else None)
     if e["a"] == "ROW":
         ctx = ev[0]["emits"][e["at"] - 1] if e.get("at") else None
         return "listing row line=%s addr=%s units=%s (%s) vs emission %s" % (
@@ -379,12 +418,31 @@ def main(tier):
                         "tokenisers of listing / MAP / NoICE / Atmel / share files (vlib/listing.py) are trusted; TLC judges",
                         "page layout, titles, cross reference and usage lists, float/string/section-local/bit symbols are not judged"]
     # (M) -------------------------------------------------------------------------------------------
+    import concurrent.futures as cf
+    # dimension "listing modes" (ListingModes*.tla): its three TLC runs go on beside Listing_MC
+    mcfg = "ListingModes_MC.cfg" if quick else "ListingModes_MC_full.cfg"
+    modes_pool = cf.ThreadPoolExecutor(max_workers=3)
+    f_mmc = modes_pool.submit(tlc.run, "ListingModes_MC", mcfg, workers=2 if quick else 4, timeout=1700, mem="6g", collect=False)
+    f_mst = modes_pool.submit(tlc.run, "ListingModes_MC", "ListingModes_MC_stale.cfg", workers=1, timeout=600, mem="3g",
+                              collect=False)
+    f_mgen = modes_pool.submit(tlc.run, "ListingModes_Gen", "ListingModes_Gen.cfg", workers=2, simulate=60 if quick else 500,
+                               depth=400, timeout=1200, mem="4g")
     cfg = "Listing_MC.cfg" if quick else "Listing_MC4.cfg"
-    with Phase("TLC Listing_MC %s" % cfg):
+    with Phase("TLC Listing_MC %s (+ ListingModes_MC %s, _stale, ListingModes_Gen)" % (cfg, mcfg)):
         mc = tlc.must(tlc.run("Listing_MC", cfg, workers=min(NCPU, 8), timeout=1700, mem="12g", collect=False), "Listing_MC")
+        mmc = tlc.must(f_mmc.result(), "ListingModes_MC")
+        mst = tlc.must(f_mst.result(), "ListingModes_MC(stale)")
+        mgen = tlc.must(f_mgen.result(), "ListingModes_Gen")
+        modes_pool.shutdown()
     if mc.violation:
         raise CheckError("Listing_MC: the listing model violates its invariants: %s" % mc.violation[:900])
     rep.model("Listing_MC(%s)" % cfg, mc)
+    if mmc.violation:
+        raise CheckError("ListingModes_MC: the listing-mode model violates its invariants: %s" % mmc.violation[:900])
+    rep.model("ListingModes_MC(%s)" % mcfg, mmc)
+    if not mst.violation:
+        rep.drift("ListingModes_MC_stale: a ListLine that is not reset per line is not refuted any more (model out of date)")
+    rep.model("ListingModes_MC(stale, refuted)", mst)
     # (G) -------------------------------------------------------------------------------------------
     nsim = 40 if quick else 600
     gen = tlc.must(tlc.run("Listing_Gen", "Listing_Gen.cfg", workers=2, simulate=nsim, depth=12, timeout=600, mem="6g"),
@@ -418,7 +476,35 @@ def main(tier):
         jobs.append((bld.dir, bld.hooks, bld.flavour, sources, opts, ["a.lst", "a" + dbg[1], "a" + sh[2]]))
         metas.append({"kind": "generated", "beh": bh, "dialect": dn, "radix": radix, "share": sh[0], "debug": dbg[0],
                       "meta": meta, "sources": sources, "base": "a", "name": "gen%d/%s" % (bi, dn)})
-    import concurrent.futures as cf
+    # programs of the dimension "listing modes": LISTING / MACEXP_DFT / MACEXP_OVR / MACEXP / SAVE / RESTORE, control
+    # parameters of macros, IF constructs, macro calls and REPT; those in which a hidden statement leaves an extra
+    # text in front of a listed code line (`hot`, computed by the specification) come first
+    rep.model("ListingModes_Gen", mgen)
+    mbehs = []
+    seen = set()
+    for (tag, bh) in mgen.printed:
+        if tag == "BEH":
+            k = repr(bh["prog"]) + repr(bh["tgt"]) + str(bh["radix"])
+            if k not in seen and any(st["len"] > 0 for st in bh["steps"]):
+                seen.add(k)
+                mbehs.append(bh)
+    if not mbehs:
+        raise CheckError("ListingModes_Gen exported no program")
+    rng("c19/modes").shuffle(mbehs)
+    nmodes = 40 if quick else 1000
+    hot = [bh for bh in mbehs if bh["hot"] > 0][:(nmodes * 3) // 5]
+    mbehs = hot + [bh for bh in mbehs if bh["hot"] == 0][:nmodes - len(hot)]
+    for bi, bh in enumerate(mbehs):
+        dnames = [dn for dn in DIALECTS if DIALECTS[dn]["tgt"] == (bh["tgt"]["gran"], bh["tgt"]["lgran"])]
+        dn = dnames[bi % len(dnames)]
+        radix = bh["radix"]
+        sh = SHARES[bi % 3]
+        dbg = DEBUGS[bi % 3] if not (dn != "z80" and DEBUGS[bi % 3][0] == "ATMEL") else DEBUGS[0]
+        sources = {"a.asm": listmodes.render(bh, DIALECTS[dn])}
+        opts = ["-q", "-L", "-listradix", str(radix), "-g", dbg[0], sh[1]]
+        jobs.append((bld.dir, bld.hooks, bld.flavour, sources, opts, ["a.lst", "a" + dbg[1], "a" + sh[2]]))
+        metas.append({"kind": "generated", "sub": "modes", "beh": bh, "dialect": dn, "radix": radix, "share": sh[0],
+                      "debug": dbg[0], "sources": sources, "base": "a", "name": "modes%d/%s" % (bi, dn)})
     with Phase("assemble %d generated programs" % len(jobs)):
         with cf.ProcessPoolExecutor(max_workers=NCPU) as ex:
             gres = list(ex.map(_run_generated, jobs, chunksize=4))
@@ -466,7 +552,7 @@ def main(tier):
     again = []
     for ci in sorted(bad):
         m, res = infos[ci]
-        if m["radix"] != 16 and any(cases[ci][k]["a"] == "ROW" for k in bad[ci]):
+        if m["radix"] != 16 and any(cases[ci][k]["a"] == "ROW" and cases[ci][k]["units"] for k in bad[ci]):
             ev2, _ = case_events(res["trace"], res["files"], m["base"], m["radix"], m["share"], m["debug"], res["p"],
                                  reading_radix=16)
             again.append((ci, ev2))
@@ -478,7 +564,7 @@ def main(tier):
         rep.cov["states"] += tr2.distinct
         rep.cov["transitions"] += tr2.generated
         for k, (ci, ev2) in enumerate(again):
-            rowbad = [j for j in bad2.get(k, []) if ev2[j]["a"] == "ROW"]
+            rowbad = [j for j in bad2.get(k, []) if ev2[j]["a"] == "ROW" and ev2[j]["units"]]
             if not rowbad:
                 hexread_ok.add(ci)
             else:
@@ -490,7 +576,9 @@ def main(tier):
         for k in bad[ci]:
             e = cases[ci][k]
             dev = "none"
-            if e["a"] == "ROW" and ci in hexread_ok:
+            if e["a"] == "ROW" and not e["units"]:
+                dev = "text-for-code"                       # Listing_Trace Withheld
+            elif e["a"] == "ROW" and ci in hexread_ok:
                 dev = "listradix-ignored"
             if e["a"] in ("MAPLINE", "OBJLINE"):
                 # which statement is it?  (classification only: the listing's copy of the source line)
@@ -508,7 +596,7 @@ def main(tier):
                                                           describe(cases[ci], k))
             if dev == "listradix-ignored":
                 what += "  [the listing is right when its digits are read as hexadecimal]"
-            elif e["a"] == "ROW" and ci in hexread_bad:
+            elif e["a"] == "ROW" and e["units"] and ci in hexread_bad:
                 ev2, k2 = hexread_bad[ci]
                 what = "%s (radix %d, -g %s, share %s): even with its digits read as hexadecimal: %s" % (
                     m["name"], m["radix"], m["debug"], m["share"], describe(ev2, k2))
@@ -524,7 +612,18 @@ def main(tier):
                           files=files, key={"event": e["a"], "deviation": dev})
     # model expectation for generated programs (diagnostic) ----------------------------------------------
     ndrift = 0
+    mdrift = {}
     for ci, (m, res) in enumerate(infos):
+        if m.get("sub") == "modes":
+            # which lines the listing holds / what their code column holds, as ListingModes_Gen expects it
+            lst = res["files"].get("a.lst")
+            d = listmodes.expectation_diff(m["beh"], listing.parse_listing(lst.decode("latin-1"), m["radix"])[0],
+                                           m["radix"]) if lst is not None else None
+            if d:
+                mdrift[d[0]] = mdrift.get(d[0], 0) + 1
+                if mdrift[d[0]] <= 3:
+                    rep.drift("generated program %s (listing modes): %s" % (m["name"], d[1]))
+            continue
         if m["kind"] != "generated" or ci in bad:
             continue
         d = expectation_diff(m, res)
@@ -538,12 +637,20 @@ def main(tier):
              rows=sum(m["stats"]["rows"] for (m, _) in infos), code_rows=sum(m["stats"]["code_rows"] for (m, _) in infos),
              symbol_reports=sum(m["stats"]["syms"] for (m, _) in infos),
              line_address_entries=sum(m["stats"]["maplines"] for (m, _) in infos),
-             emissions=sum(m["stats"]["emits"] for (m, _) in infos), rejected_runs=len(bad))
+             emissions=sum(m["stats"]["emits"] for (m, _) in infos), rejected_runs=len(bad),
+             first_rows_aligned_with_statements=sum(m["stats"]["aligned"] for (m, _) in infos))
+    rep.part("listing_modes", programs=sum(1 for (m, _) in infos if m.get("sub") == "modes"),
+             hot_programs=sum(1 for (m, _) in infos if m.get("sub") == "modes" and m["beh"]["hot"] > 0),
+             processed_lines=sum(len(m["beh"]["steps"]) for (m, _) in infos if m.get("sub") == "modes"),
+             lines_kept_out_of_the_listing=sum(sum(1 for st in m["beh"]["steps"] if not st["listed"])
+                                               for (m, _) in infos if m.get("sub") == "modes"),
+             programs_differing_from_expectation=dict(mdrift))
     from checks import ext_reports          # phase "reports": usage / cross reference / section ... lists, page layout
     ext_reports.run(rep, bld, tier)
     return rep.finish(
         rule="runs = TLC-simulated programs of the Listing core (<= 9 statements, <= 13 bytes per line) rendered in 4 "
-             "dialects + golden sources (quick: 45 seed-chosen, thorough: all 201), each assembled with -L -listradix "
+             "dialects + TLC-simulated programs of ListingModes (14 top-level statements: LISTING x MACEXP_DFT/_OVR/MACEXP x "
+             "SAVE/RESTORE x macro control parameters x IF constructs x macro calls / REPT) + golden sources (quick: 45 seed-chosen, thorough: all 201), each assembled with -L -listradix "
              "{2,8,10,16,36} x -g {MAP,NOICE,ATMEL} x share {-c,-p,-a} (round robin); distinct = (program, radix, share, "
              "debug); non-trivial = the listing has code-bearing rows", exhaustive=False)
 
@@ -590,7 +697,7 @@ def replay(path):
             if f.endswith(".asm") or f.endswith(".inc"):
                 srcs[f] = open(os.path.join(path, f)).read()
         opts = ["-q", "-L", "-listradix", str(c["radix"]), "-g", c["debug"], dict((s[0], s[1]) for s in SHARES)[c["share"]]]
-        r = aslrun.assemble(bld, srcs, opts=opts, events="file,emit,sym", want=["a.lst"])
+        r = aslrun.assemble(bld, srcs, opts=opts, events=EVENTS, want=["a.lst"])
         ev, _ = case_events(r.trace, r.files, "a", c["radix"], c["share"], c["debug"], r.p)
         bad, _ = judge([ev])
         log("replay: TLC %s the run%s" % ("rejects" if bad else "accepts", (": " + describe(ev, bad[0][0])) if bad else ""))
@@ -604,7 +711,7 @@ def selftest(tier):
     bld = build.get("hook")
     src = {"a.asm": "\tcpu\t68000\nEQA\tequ\t4660\nL1:\tdc.b\t1,2,3,4,5,6,7,8,9\n\tphase\t32768\n"
                     "L2:\tdc.w\t258,772\n\tdephase\n\tshared\tL1,L2,EQA\n\tend\n"}
-    r = aslrun.assemble(bld, src, opts=["-q", "-L", "-g", "MAP", "-c"], events="file,emit,sym", want=["a.lst", "a.map", "a.h"])
+    r = aslrun.assemble(bld, src, opts=["-q", "-L", "-g", "MAP", "-c"], events=EVENTS, want=["a.lst", "a.map", "a.h"])
     ev, _ = case_events(r.trace, r.files, "a", 16, "c", "MAP", r.p)
     variants = {"unchanged": ev}
 
@@ -629,6 +736,10 @@ def selftest(tier):
     v = copy.deepcopy(ev)
     v[0]["recs"][0]["data"][3] ^= 255
     variants["code file byte changed"] = v
+    v = copy.deepcopy(ev)
+    i = first("ROW", lambda e: e["units"] and not e["cont"] and e["at"])
+    v[i]["units"] = []                                   # an extra text in place of the code dump (at = the line's emission)
+    variants["code of a listed line withheld"] = v
     names = list(variants)
     bad, _ = judge([variants[n] for n in names])
     ok = True
